@@ -304,8 +304,9 @@ def run_phys(case):
                     s3, pt3, _ = build_phys(case, solver=solver if solver != "lsq_linear" else None)
                     if solver == "lsq_linear":
                         s3.solver = "lsq_linear"
-                        # inactive bounds of the natural scale around the direct solution
-                        lo, hi = u[un] - 1.0, u[un] + 1.0
+                        # inactive bounds of the natural scale around the direct solution, one per dof
+                        # (Get_lb_ub returns full-size vectors; __Solver_1 restricts them to the unknown dofs)
+                        lo, hi = u - 1.0, u + 1.0
                         s3.Get_lb_ub = lambda problemType, lo=lo, hi=hi: (lo, hi)
                     u3 = np.asarray(s3.Solve(), dtype=float)
                     r3 = (K @ u3 - b)[un_reg]
